@@ -115,12 +115,12 @@ theorem exSP_wf : MeshWf exSP := by
 
 /-- a MIXED plane: axis `a` periodic, axis `b` open; the turn moves the periodicity to `b` -/
 theorem exSP_tw01 : TurnWf exSP 0 1 := by
-  have h : rotBc1 exSP.mesh.bc (exSP.mesh.region.dims.getD 0 "") (exSP.mesh.region.dims.getD 1 "") = "b" := by decide
-  exact ⟨Or.inl ⟨by decide, by decide, by decide, by decide⟩, by rw [h]; exact lower_b, by rw [h]; decide⟩
+  have h : rotBc1 exSP.mesh.bc (exSP.mesh.region.dims.getD 0 "") (exSP.mesh.region.dims.getD 1 "") = "b" := by decide +kernel
+  exact ⟨Or.inl ⟨by decide, by decide, lower_a, lower_b⟩, by rw [h]; exact lower_b, by rw [h]; decide⟩
 
 theorem exSP_tw02 : TurnWf exSP 0 2 := by
-  have h : rotBc1 exSP.mesh.bc (exSP.mesh.region.dims.getD 0 "") (exSP.mesh.region.dims.getD 2 "") = "c" := by decide
-  exact ⟨Or.inl ⟨by decide, by decide, by decide, by decide⟩, by rw [h]; exact lower_c, by rw [h]; decide⟩
+  have h : rotBc1 exSP.mesh.bc (exSP.mesh.region.dims.getD 0 "") (exSP.mesh.region.dims.getD 2 "") = "c" := by decide +kernel
+  exact ⟨Or.inl ⟨by decide, by decide, lower_a, lower_c⟩, by rw [h]; exact lower_c, by rw [h]; decide⟩
 
 theorem exV_tw (a b : Nat) : TurnWf exV a b := by
   have h : ∀ da db, rotBc1 exV.mesh.bc da db = "" := by
@@ -129,7 +129,11 @@ theorem exV_tw (a b : Nat) : TurnWf exV a b := by
     have : exV.mesh.bc = "" := rfl
     rw [this]
     simp
-  exact ⟨Or.inr (by unfold periodic; simp [exV, exMesh]), by rw [h]; exact lower_e, by rw [h]; decide⟩
+  have hp : ∀ d, C04.periodicBc "" d = false := by
+    intro d; unfold C04.periodicBc
+    have : ("" : String).toList = [] := by decide
+    rw [this]; simp
+  exact ⟨Or.inr (by unfold periodic; simp [exV, exMesh, hp]), by rw [h]; exact lower_e, by rw [h]; decide⟩
 
 /-- `exSP` with one invalid cell (a masked field; periodic along `a`) -/
 def exSM : Fld := { exSP with valid := ⟨[4, 3, 5], fun i => decide (i ≠ [1, 1, 2])⟩ }
